@@ -21,6 +21,8 @@ Oracle, clause by clause (DESIGN.md section 4, C10):
  (vi)  no exception escapes the loop, the loop does not end, and it never hands a closed socket to select.
 """
 import struct
+import errno
+import os
 
 from hypothesis import strategies as st
 
@@ -464,9 +466,183 @@ def _chunks(stream, cuts):
   return [stream[b[i]:b[i + 1]] for i in range(len(b) - 1) if b[i + 1] > b[i]]
 
 
+# --------------------------------------------------------------------------- sustained load: the loop's own wake-up pipe
+
+class _WouldBlockForever(BaseException):
+  """a blocking pipe operation that nothing can ever complete (the only thread that could is the one blocked)"""
+
+
+class _VOs(object):
+  """Stands in for the `os` attribute of pox.lib.util while a RecocoIOLoop is created: pipes are virtual, have the kernel's
+  capacity (64 KiB) and honour O_NONBLOCK set through os.set_blocking(); everything else is the real os.  The loop runs
+  in one thread, so a write to a full blocking pipe (or a read from an empty one) can never complete: it is recorded in
+  `blocked` and unwinds with a BaseException."""
+  CAPACITY = 65536
+  name = "posix"
+
+  def __init__(self):
+    self.pipes = {}        # fd -> [buffer, "r"|"w"]
+    self.nonblocking = set()
+    self.blocked = None
+    self.high_water = 0
+
+  def pipe(self):
+    buf = bytearray()
+    r = 3000000 + 2 * len(self.pipes)
+    self.pipes[r] = [buf, "r"]
+    self.pipes[r + 1] = [buf, "w"]
+    return r, r + 1
+
+  def set_blocking(self, fd, flag):
+    if fd not in self.pipes:
+      return os.set_blocking(fd, flag)
+    (self.nonblocking.discard if flag else self.nonblocking.add)(fd)
+
+  def get_blocking(self, fd):
+    if fd not in self.pipes:
+      return os.get_blocking(fd)
+    return fd not in self.nonblocking
+
+  def pending(self, fd):
+    return len(self.pipes[fd][0])
+
+  def write(self, fd, data):
+    if fd not in self.pipes:
+      return os.write(fd, data)
+    buf = self.pipes[fd][0]
+    room = self.CAPACITY - len(buf)
+    if room <= 0:
+      if fd in self.nonblocking:
+        raise BlockingIOError(errno.EAGAIN, "Resource temporarily unavailable")
+      self.blocked = "write of the wake-up byte to a full pipe (%d bytes pending, nothing left to read them)" % len(buf)
+      raise _WouldBlockForever()
+    k = min(room, len(data))
+    buf += bytes(data[:k])
+    self.high_water = max(self.high_water, len(buf))
+    return k
+
+  def read(self, fd, n):
+    if fd not in self.pipes:
+      return os.read(fd, n)
+    buf = self.pipes[fd][0]
+    if not buf:
+      if fd in self.nonblocking:
+        raise BlockingIOError(errno.EAGAIN, "Resource temporarily unavailable")
+      self.blocked = "read from the empty wake-up pipe"
+      raise _WouldBlockForever()
+    d = bytes(buf[:n])
+    del buf[:n]
+    return d
+
+  def close(self, fd):
+    if fd not in self.pipes:
+      return os.close(fd)
+
+  def __getattr__(self, n):
+    return getattr(os, n)
+
+
+def _run_load(case, out):
+  """Every connection of a switch-side I/O loop receives a long run of small messages that each draw an answer (well-formed echo
+  requests, or malformed ones answered with an error); the loop must keep serving all of them.  The loop's wake-up pinger is the
+  real pox.lib.util PipePinger over a virtual pipe of the kernel's capacity."""
+  import pox.lib.util as U
+  S = _S
+  IOW = S["IOW"]
+  world = W.World()
+  vos = _VOs()
+  saved = (U.os, IOW.makePinger)
+  loop = None
+  try:
+    U.os = vos
+    IOW.makePinger = U._pvf_real_make_pinger
+    loop = L.SwitchLoop(world)
+    pinger = loop.loop.pinger
+    rfd = pinger.fileno()
+    if rfd not in vos.pipes:
+      raise HarnessError("the I/O loop's pinger is not running over the virtual pipe")
+    # 8-byte messages: a well-formed echo request (answered with an echo reply) / a header of a type that does not exist
+    # (answered with an OFPET_BAD_REQUEST error)
+    unit = struct.pack("!BBHL", 1, R.ECHO_REQUEST if case["msg"] == "echo" else 0x63, 8, 7)
+    out.label("load:" + case["msg"])
+    peers = []
+    for i in range(case["conns"]):
+      sock = TapSock("load-%d" % i)
+      worker = loop.loop.new_worker(sock)
+      conn = S["SW"].OFConnection(worker)
+      sw = S["SW"].SoftwareSwitch(i + 1, ports=2)
+      sw.set_connection(conn)
+      peers.append((sock, worker))
+    per = case["per_round"]
+    answered = [0] * len(peers)
+    fed = [0] * len(peers)
+    pend = [b""] * len(peers)
+    def one_pass():
+      rl = [w for (sk, w) in peers if w in loop.selected and not sk.closed and sk.v_readable()]
+      if vos.pending(rfd):
+        rl.append(pinger)
+      wl = loop.writable()
+      if not rl and not wl:
+        return False
+      loop.step(rl, wl)
+      for i, (sock, worker) in enumerate(peers):
+        sent = sock.take_sent()
+        if sent:
+          fr = R.split(pend[i] + sent)
+          answered[i] += len(fr.messages)
+          pend[i] = (pend[i] + sent)[fr.rest:]
+      return True
+
+    # the peers keep sending: before every pass of the loop each connection has another burst waiting
+    for rnd in range(case["rounds"]):
+      for i, (sock, worker) in enumerate(peers):
+        if not sock.closed and not sock.inbox:
+          sock.feed(unit * per)
+          fed[i] += per
+      if not one_pass() or vos.blocked or not loop.alive:
+        break
+    # ... and then fall silent: everything outstanding must still be answered
+    for _ in range(4096):
+      if vos.blocked or not loop.alive or not one_pass():
+        break
+    out.nontrivial = case["conns"] >= 2 and sum(fed) * 1 >= 65536
+    out.label("wake-up-pipe-high-water:%s" % ("<1k" if vos.high_water < 1024 else "<16k" if vos.high_water < 16384 else "<64k" if vos.high_water < 65536 else "full"))
+    if vos.blocked:
+      out.fail("io-loop-blocked", "switch-side I/O loop with %d connections each sending %d-message bursts of %s: after %d messages the loop thread blocks for ever in a %s; no connection is served any more"
+               % (case["conns"], per, case["msg"], sum(fed), vos.blocked), side="sw", where="wake-up-pipe")
+    elif not loop.alive:
+      out.fail("loop-died", "switch-side I/O loop ended under sustained load: %r" % (loop.ended,), side="sw", cause="load", phase="other")
+    else:
+      for i in range(len(peers)):
+        if answered[i] != fed[i]:
+          out.fail("load-unanswered", "connection %d sent %d %s messages and got %d answers" % (i, fed[i], case["msg"], answered[i]), side="sw")
+          break
+  finally:
+    if loop is not None:
+      loop.close()
+    U.os, IOW.makePinger = saved
+    world.close()
+  return out
+
+
+def enum_load(tier):
+  """bursts of 8-byte messages that each draw an answer, on 1..4 connections at once, for enough passes of the loop that more wake-up
+  bytes have been written than a pipe holds"""
+  if tier == "quick":
+    grid = [("echo", 1, 1024), ("echo", 2, 1024), ("echo", 3, 1024), ("unknown-type", 2, 1024)]
+  else:
+    grid = [(m, c, p) for m in ("echo", "unknown-type") for c in (1, 2, 3, 4) for p in (1024, 1023, 700, 512, 300)]
+  for msg, conns, per in grid:
+    growth = per * conns - 1024          # wake-up bytes written minus bytes one pass can drain
+    rounds = (70000 // growth + 8) if growth > 0 else 48
+    yield {"k": "load", "side": "sw", "msg": msg, "conns": conns, "per_round": per, "rounds": rounds}
+
+
 def run_case(case):
   setup()
   out = Outcome()
+  if case.get("k") == "load":
+    return _run_load(case, out)
   side = case["side"]
   direction = R.TO_CONTROLLER if side == "ctl" else R.TO_SWITCH
   out.label("side:" + side)
@@ -1295,6 +1471,7 @@ def plan(tier):
     Enum("handshake", lambda: enum_handshake(tier), shards=8),
     Enum("faults", lambda: enum_faults(tier), shards=16),
     Enum("two-victims", lambda: enum_two_victims(tier), shards=16),
+    Enum("sustained-load", lambda: enum_load(tier), shards=4 if tier == "quick" else 16),
     Hyp("mutation", lambda: case_strategy(tier), examples=n, shards=16),
     # coverage-guided (atheris/libFuzzer) campaigns on both loops; skipped with a note if atheris is missing
     Custom("atheris", c10_ofstream.driver(2000 if tier == "quick" else 130000), shards=2 if tier == "quick" else 16),
